@@ -13,7 +13,7 @@ CONSTANTS
   MaxDef = 0
   NHostVals = 7
   NPaths = 10
-  NQueries = 3
+  NQueries = 4
   Others = {0}
   GenLists <- GenListsThorough
   GenHostSeqs <- GenHostSeqsThorough
